@@ -51,7 +51,15 @@ def _node_at(spec, path):
 
 
 def worker(depth, hash_name, out_path, order="fwd"):
-    import joblib
+    import joblib as _joblib
+
+    class joblib:                       # noqa  (a digest that cannot be computed is an observation, not a crash)
+        @staticmethod
+        def hash(value, hash_name="md5"):
+            try:
+                return _joblib.hash(value, hash_name=hash_name)
+            except Exception as e:  # noqa
+                return "RAISES:%s: %s" % (type(e).__name__, str(e)[:80])
     specs = V.universe(depth)
     if order == "rev":
         specs = list(reversed(specs))
@@ -141,6 +149,12 @@ def run(ctx):
             nvariants += r["nvariants"]
             if set(r["table"]) != set(ref["table"]):
                 raise core.HarnessError("universe differs between processes")
+            for c, dg in r["table"].items():
+                if dg.startswith("RAISES:"):
+                    kinds = "+".join(sorted(_kinds(by_canon[c]) & {"set", "frozenset", "dict"})) or "ordered"
+                    ctx.violation("hash-raises:%s|%s" % (dg.split(":")[1], kinds),
+                                  "joblib.hash(%s, %r) raised %s (PYTHONHASHSEED=%s)" % (c, hn, dg[7:], sd),
+                                  {"kind": "seed", "canon": c, "hash_name": hn, "seeds": [sd], "depth": depth})
             for c, dg in r["table"].items():
                 if dg != ref["table"][c]:
                     kinds = "+".join(sorted(_kinds(by_canon[c]) & {"set", "frozenset", "dict"})) or "ordered"
